@@ -1,6 +1,7 @@
 import asyncio
 import fractions
 import inspect
+import math
 import time
 
 from typing import Any, Callable
@@ -340,6 +341,10 @@ async def patch_port_value(request: core_api.APIRequest, port_id: str, params: P
 
     value = params
 
+    # Infinity and NaN (which the JSON parser lets through, e.g. as 1e400) are in no port's domain
+    if isinstance(value, float) and not math.isfinite(value):
+        raise core_api.APIError(400, 'invalid-value')
+
     # Step validation
     step = await port.get_attr('step')
     min_ = await port.get_attr('min')
@@ -399,6 +404,10 @@ async def patch_port_sequence(request: core_api.APIRequest, port_id: str, params
             core_api_schema.validate(value, value_schema)
         except core_api.APIError:
             raise core_api.APIError(400, 'invalid-field', field='values') from None
+
+        # Infinity and NaN (which the JSON parser lets through, e.g. as 1e400) are in no port's domain
+        if isinstance(value, float) and not math.isfinite(value):
+            raise core_api.APIError(400, 'invalid-field', field='values')
 
         # Step validation
         if None not in (step, min_) and step != 0 and not _on_step_grid(value, min_, step):
